@@ -15,6 +15,7 @@ Print Assumptions C17_safe_component_stays_inside.
    path separator, in any state - an id is used only when it has none, the part and chapter numbers otherwise - and a
    chapter prefix that holds one is refused by X set *)
 Require NamesSafe.
+From Coq Require Import String.
 Theorem C17_chapter_name_has_no_separator : forall s, Xhtml.X.has_slash (Xhtml.X.chapname s) = false.
 Proof. exact NamesSafe.chapname_has_no_separator. Qed.
 Theorem C17_prefix_with_separator_is_refused : forall v s, Exp.fmt s = Exp.FX -> Xhtml.X.has_slash v = true ->
